@@ -54,14 +54,16 @@ def main():
             'commands': ['tools/run_seeded.py %s   (demo.py on /repo clean; git -C /repo apply patch.diff; demo.py; ./check %s --tier quick; '
                          'git -C /repo checkout -- .)' % (sid, meta['property']),
                          'tools/confirm_suite.py %s   (scratch worktree under /tmp, patch applied, BASELINE pytest command, worktree removed)' % sid],
-            'first_run_against_the_checks': FIRST.get(sid, 'caught as the checks stood'),
+            'first_run_against_the_checks': FIRST.get(sid) or ('re-based variant, run against the strengthened checks only' if sid.endswith('-rb')
+                                                                 else 'caught as the checks stood'),
         }
         json.dump(meta, open(os.path.join(d, 'meta.json'), 'w'), indent=1)
         files = meta.get('files') or sorted(set(re.findall(r'^\+\+\+ b/(\S+)', open(os.path.join(d, 'patch.diff')).read(), re.M)))
         rows.append('| %s | %s | %s | %s | %s | %s |' % (
             sid, ', '.join(os.path.basename(f) for f in files), (meta.get('needs') or '').split('. ')[0][:170].replace('|', '/'),
             (suite.get('summary') or '?').replace('|', '/')[:60],
-            first or ('**MISSED**' if res else 'not run'), FIRST.get(sid, 'caught as the checks stood').replace('|', '/')))
+            (first or ('**MISSED**' if res else 'not run')) + (' (on the tree before fix 8d0f8ea; now ineffective, see -rb)' if meta.get('status') else ''),
+            (FIRST.get(sid) or ('re-based variant (mine) of %s' % sid[:-3] if sid.endswith('-rb') else 'caught as the checks stood')).replace('|', '/')))
     table = ['| change | file | needs (first sentence of meta.json) | repo suite with the patch | caught by (first violation line) | first run |',
              '|---|---|---|---|---|---|'] + rows
     p = os.path.join(ROOT, 'DESIGN.md')
